@@ -998,7 +998,22 @@ fn is_large_tempid_fault(fault: &str) -> bool {
 fn gen_case_meta(seed: u64, idx: u64) -> Option<(String, String)> {
     // generating a case is safe (no loading happens)
     let c = gen_case(seed, idx)?;
-    Some((c.kind.name().to_string(), c.fault))
+    // does the corrupted input contain a temporary id with a large number? (listed finding: padding)
+    let mut large_tempid = false;
+    for v in c.files.values().map(|v| unhex(v)).chain(std::iter::once(c.main.clone().into_bytes())) {
+        let mut i = 0;
+        while i + 2 < v.len() {
+            if v[i] == b'!' && v[i + 1].is_ascii_uppercase() {
+                let digits = v[i + 2..].iter().take_while(|b| b.is_ascii_digit()).count();
+                if digits >= 6 {
+                    large_tempid = true;
+                }
+            }
+            i += 1;
+        }
+    }
+    let fault = if large_tempid { format!("{}->\"!X000000 (large temporary id in input)", c.fault) } else { c.fault };
+    Some((c.kind.name().to_string(), fault))
 }
 
 fn write_evidence(tier: &str, seed: u64, total: u64, t: &Tally, violations: usize, wall: f64, known_hit: &[String]) {
